@@ -34,3 +34,14 @@ func VerifProofRoundTrip() {
 		}
 	}
 }
+
+// VerifProofUnmarshalArbitrary: arbitrary bytes parsed as a proof never panic; success means
+// every line decoded.
+func VerifProofUnmarshalArbitrary() {
+	data := rt.Bytes("data")
+	var q Proof
+	err := q.Unmarshal(data)
+	rt.Cover(err == nil && len(q) == 2, "proof/arbitrary-two-lines")
+	rt.Cover(err != nil, "proof/arbitrary-refused")
+	rt.Assert(err != nil || len(q) >= 0, "C19/proof-unmarshal-returns")
+}
